@@ -90,17 +90,18 @@ def scenarios(tier, famname):
     quick = tier == "quick"
     if famname == "RTL":
         sub_p = ["c[0]", "d[0][1]", "m.g", "m"]
-        sub_c = ["Cons", "Nest", "Mix", "MidB"] if quick else ["Reg", "Cons", "Nest", "Slc", "Mix", "Mid", "MidB"]
+        sub_c = ["Nest", "Mix", "Mid", "MidB"] if quick else ["Cons", "Nest", "Mix", "Mid", "MidB"]
         pair_p = ["a", "c[0]", "c[1]", "d[1][0]", "m", "m.g"]
         pair_c = ["Reg", "Nest", "Mix", "RegO", "Slc", "Hold", "Mid", "MidB"]
+        nest_c = ["Reg", "Nest", "Mix", "Cons", "Hold", "Mid", "MidB"]
     elif famname == "PB":
         sub_p = ["c", "l[1]", "m", "m.g"]
-        sub_c = ["PReg", "PMix", "PBMidB"] if quick else allc
-        pair_p, pair_c = allp, allc
+        sub_c = ["PReg", "PMix", "PBMidB"] if quick else ["PReg", "PMix", "PNest", "PBMid", "PBMidB"]
+        pair_p, pair_c, nest_c = allp, allc, allc
     else:
         sub_p = ["q", "qs[1]", "w", "w.foo"]
-        sub_c = ["QCnt", "QNest", "QReg", "CLMidB"] if quick else ["QPipe", "QCnt", "QNest", "QReg", "QByp", "CLMid", "CLMidB"]
-        pair_p, pair_c = allp, allc
+        sub_c = ["QNest", "QReg", "CLMid", "CLMidB"] if quick else ["QCnt", "QNest", "QReg", "CLMid", "CLMidB"]
+        pair_p, pair_c, nest_c = allp, allc, allc
     nest_p = fam.hosts + fam.nested
     # replace_component on a hosting position after its nested position has changed (the API falls back
     # to the constructor arguments of the removed host) needs both calls at every step
@@ -109,9 +110,9 @@ def scenarios(tier, famname):
         return [nested, dict(name="uniform-inits", inits=uni, positions=allp, palette=allc, kinds="both", maxlen=1),
                 dict(name="pairs-len2", inits=base, positions=pair_p, palette=pair_c, kinds="alt", maxlen=2),
                 dict(name="sub-len3", inits=base, positions=sub_p, palette=sub_c, kinds="alt", maxlen=3)]
-    nested = dict(nested, name="nested-len3", maxlen=3,
-                  palette=allc if famname != "RTL" else ["Reg", "Nest", "Mix", "Cons", "Hold", "Mid", "MidB"])
-    return [nested, dict(name="uniform-inits", inits=uni, positions=allp, palette=allc, kinds="alt", maxlen=2),
+    return [dict(nested, name="nested-len3", maxlen=3, palette=nest_c),
+            dict(name="uniform-inits", inits=uni, positions=allp, palette=allc, kinds="both", maxlen=1),
+            dict(name="uniform-len2", inits=uni, positions=pair_p, palette=pair_c, kinds="alt", maxlen=2),
             dict(name="all-len2", inits=base, positions=allp, palette=allc, kinds="both", maxlen=2),
             dict(name="pairs-len3", inits=base, positions=pair_p, palette=pair_c, kinds="alt", maxlen=3),
             dict(name="sub-len4", inits=base, positions=sub_p, palette=sub_c, kinds="alt", maxlen=4)]
@@ -507,6 +508,15 @@ def run(res, tier):
                "not simulated" % NCYC)
 
 
+def _pgs(fam, tier, i):
+    """pass groups under which history number i is simulated: all of the family's in the thorough tier;
+    in the quick tier DefaultPassGroup and, in turn, one of the others"""
+    pgs = list(fam.pass_groups)
+    if tier != "quick" or len(pgs) <= 2:
+        return pgs
+    return [pgs[0], pgs[1 + i % (len(pgs) - 1)]]
+
+
 def _family(res, tier, famname, rp, F, R, sd):
     quick = tier == "quick"
     fam = J.family(famname)
@@ -552,7 +562,8 @@ def _family(res, tier, famname, rp, F, R, sd):
         res.note("histories_%s_%s" % (famname, sc["name"]), len(hs))
         for (icfg, path) in hs:
             # every other history hands replace_component_with_obj objects built before the design
-            jobs.append(dict(id=nid, fam=famname, init=icfg, steps=path, check="last", sim=True, pre=nid % 2 == 1))
+            jobs.append(dict(id=nid, fam=famname, init=icfg, steps=path, check="last", sim=True, pre=nid % 2 == 1,
+                             pgs=_pgs(fam, tier, nid // 2)))
             nid += 1
     seen = {}
     for j in jobs:                                # scenarios overlap: replay a history once
@@ -588,7 +599,8 @@ def _family(res, tier, famname, rp, F, R, sd):
         init = fam.random_cfg(R)
         mv = fam.moves()
         steps = [(R.choice(["Replace", "ReplaceWithObj"]),) + R.choice(mv) for _ in range(ln)]
-        jobs.append(dict(id=("long", i), fam=famname, init=init, steps=steps, check="all", sim=True, pre=i % 2 == 1))
+        jobs.append(dict(id=("long", i), fam=famname, init=init, steps=steps, check="all", sim=True, pre=i % 2 == 1,
+                         pgs=_pgs(fam, tier, i // 2)))
     with ph("random-replay"):
         recs = rp.run(jobs, chunk=2)
     # simulation after every intermediate step needs an unmutated copy: replay the prefixes
@@ -598,7 +610,7 @@ def _family(res, tier, famname, rp, F, R, sd):
         upto = (r["raised"]["step"] - 1) if r["raised"] else len(r["steps"]) - 1
         for k in range(1, upto + 1):
             pjobs.append(dict(id=("prefix", i, k), fam=famname, init=r["init"], steps=r["steps"][:k], check="last",
-                              sim=True, pre=r["pre"]))
+                              sim=True, pre=r["pre"], pgs=_pgs(fam, tier, i // 2 + k)))
     with ph("random-replay"):
         precs = rp.run(pjobs, chunk=8)
     traces, order = [], []
